@@ -99,6 +99,7 @@ def required_attrs_table(repo):
 def run(repo, rep, tier):
     operation_envelopes_agree(repo, rep, 'C02.R8', 'handlers')
     regex_termination_rule(repo, rep)
+    pull_result_invariant(repo, rep)
     r1 = rep.rule('C02.R1', 'only pywbem.Error escapes the reply path '
                   '(raises, data-dependent asserts)')
     r3 = rep.rule('C02.R3', 'attribute lookups are covered by check_node')
@@ -721,13 +722,23 @@ def run(repo, rep, tier):
     r2 = rep.rule('C02.R2a', 'the possibly-None result of _imethodcall is '
                   'tested before it is used as a sequence')
     imc = envs['_imethodcall']
-    may_none = any(isinstance(n, ast.Assign) and
+    def results(e):
+        """the sub-expressions a returned expression may evaluate to"""
+        if isinstance(e, ast.BoolOp):
+            return [x for v in e.values for x in results(v)]
+        if isinstance(e, ast.IfExp):
+            return results(e.body) + results(e.orelse)
+        return [e]
+    none_locals = {norm(n.targets[0]) for n in walk_no_nested(imc.node)
+                   if isinstance(n, ast.Assign) and
                    isinstance(n.value, ast.Constant) and
-                   n.value.value is None and
-                   any(isinstance(r_, ast.Return) and
-                       norm(r_.value) == norm(n.targets[0])
-                       for r_ in walk_no_nested(imc.node))
-                   for n in walk_no_nested(imc.node))
+                   n.value.value is None}
+    may_none = any(
+        (isinstance(x, ast.Constant) and x.value is None) or
+        norm(x) in none_locals
+        for r_ in walk_no_nested(imc.node)
+        if isinstance(r_, ast.Return) and r_.value is not None
+        for x in results(r_.value))
     if not may_none:
         raise AnalysisError('_imethodcall no longer returns None for an '
                             'empty response (R2a anchor)')
@@ -841,11 +852,12 @@ def run(repo, rep, tier):
         f = op.func
         r5.sites += 1
         r5.functions.add(f.fq)
-        hs = op.main_try.handlers
+        from ..cfg import canonical_handlers
+        hs = canonical_handlers(op.main_try)
         names = [norm(h.type) if h.type is not None else None for h in hs]
-        ok = len(hs) >= 2 and names[0] in (
-            '(CIMXMLParseError, XMLParseError)',
-            '(XMLParseError, CIMXMLParseError)') and names[-1] == 'Exception'
+        ok = len(hs) >= 2 and \
+            names[0] == '(CIMXMLParseError, XMLParseError)' and \
+            names[-1] == 'Exception'
         if ok:
             h = hs[0]
             v = h.name
@@ -1237,7 +1249,9 @@ def operation_envelopes_agree(repo, rep, rid, which):
 
     def part(op):
         t = op.main_try
-        return list(t.handlers) if which == 'handlers' else list(t.finalbody)
+        from ..cfg import canonical_handlers
+        return canonical_handlers(t) if which == 'handlers' \
+            else list(t.finalbody)
 
     def slots(name, op):
         out = [(r'\b%s\b' % re.escape(name), '<OP>')]
@@ -1324,3 +1338,120 @@ def regex_termination_rule(repo, rep):
     if not rx.ambiguous_repeats(rx.parse(r'"(?:[^"\\]+|\\.)*"')) or \
             rx.ambiguous_repeats(rx.parse(r'"(?:[^"\\]|\\.)*"')):
         raise AnalysisError('C02.R9 recogniser broken')
+
+
+def _dnf(e, pol=True, depth=0):
+    """disjunctive normal form of a condition: list of frozensets of
+    (atom text, polarity); None when too large"""
+    if depth > 6:
+        return None
+    if isinstance(e, ast.UnaryOp) and isinstance(e.op, ast.Not):
+        return _dnf(e.operand, not pol, depth + 1)
+    if isinstance(e, ast.BoolOp):
+        parts = [_dnf(v, pol, depth + 1) for v in e.values]
+        if any(p is None for p in parts):
+            return None
+        disj = isinstance(e.op, ast.Or) == pol
+        if disj:
+            return [c for p in parts for c in p]
+        out = [frozenset()]
+        for p in parts:
+            out = [a | b for a in out for b in p]
+            if len(out) > 64:
+                return None
+        return out
+    txt = norm(e, 200)
+    # `x is None` / `x is not None` / `x is True` as atoms of x
+    if isinstance(e, ast.Compare) and len(e.ops) == 1 and \
+            isinstance(e.comparators[0], ast.Constant) and \
+            e.comparators[0].value is True and \
+            isinstance(e.ops[0], (ast.Is, ast.Eq)):
+        return [frozenset([(norm(e.left, 200), pol)])]
+    return [frozenset([(txt, pol)])]
+
+
+def pull_result_invariant(repo, rep):
+    """C02.R10: what an Open/Pull operation returns is either `eos True,
+    context None` or `eos False, context (server_context, namespace)`.
+    _get_rslt_params() builds that triple for all of them: on each of its
+    return paths the condition under which the context is None must be
+    exactly `end_of_sequence`.  A wider condition (e.g. `eos or not
+    context`) returns eos=False with context None for some server replies:
+    the caller cannot continue or close the enumeration, and the Iter*
+    generators pass None to Pull.../CloseEnumeration, whose argument check
+    raises ValueError out of the iteration."""
+    from ..paths import return_paths
+    r10 = rep.rule('C02.R10', 'open/pull results have context None exactly '
+                   'when end_of_sequence is true')
+    conn = repo.cls(OPS, 'WBEMConnection')
+    f = conn.methods.get('_get_rslt_params')
+    if f is None:
+        raise AnalysisError('_get_rslt_params vanished')
+    r10.functions.add(f.fq)
+    paths = return_paths(f, inline=False)
+    if not paths:
+        raise AnalysisError('_get_rslt_params: no return paths')
+    n = 0
+    for pth in paths:
+        v = pth.value
+        if isinstance(v, ast.Name) and v.id in pth.env:
+            v = pth.env[v.id][0]
+        if not (isinstance(v, ast.Tuple) and len(v.elts) == 3):
+            continue
+        n += 1
+        r10.sites += 1
+        eos = norm(pth.resolve(v.elts[1]), 200)
+        ctx = pth.resolve(v.elts[2])
+        # condition under which the returned context is None
+        if isinstance(ctx, ast.Constant) and ctx.value is None:
+            cond = [frozenset()]
+        elif isinstance(ctx, ast.IfExp):
+            b_none = isinstance(ctx.body, ast.Constant) and \
+                ctx.body.value is None
+            o_none = isinstance(ctx.orelse, ast.Constant) and \
+                ctx.orelse.value is None
+            if b_none == o_none:
+                cond = None
+            else:
+                cond = _dnf(ctx.test, b_none)
+        elif isinstance(ctx, ast.Tuple):
+            cond = []
+        else:
+            cond = None
+        # what the path already knows about eos
+        known = None
+        for t, pol in pth.facts:
+            if norm(t, 200) == eos:
+                known = pol
+        if cond is None:
+            ok, why = False, 'the returned context is not evidently None / '\
+                'a tuple depending on end_of_sequence'
+        else:
+            why = None
+            if known is True:
+                ok = cond == [frozenset()]
+                why = 'eos is true on this path but the context is not None'
+            elif known is False:
+                ok = cond == []
+                why = 'eos is false on this path but the context can be '\
+                    'None'
+            else:
+                ok = cond == [frozenset([(eos, True)])]
+                extra = [sorted(c) for c in cond
+                         if (eos, True) not in c]
+                why = ('the context is also None when %s, with eos false'
+                       % extra) if extra else \
+                    'the context is not None for every reply with eos true'
+        r10.ob(ok, 'return@%s' % norm(v, 60),
+               {'eos': eos, 'context_none_when': None if cond is None else
+                [sorted(c) for c in cond]})
+        if not ok:
+            rep.finding(r10, f.qualname, norm(ctx, 80), 'context-vs-eos',
+                        OPS, (pth.ret_stmt or f.node).lineno,
+                        '%s: an Open/Pull operation then returns eos=False '
+                        'with context None (not the documented tuple), and '
+                        'the Iter* generators raise ValueError from '
+                        'Pull.../CloseEnumeration(None)' % why)
+    if not n:
+        raise AnalysisError('_get_rslt_params: no (objects, eos, context) '
+                            'return found')
